@@ -19,16 +19,24 @@ ALLOWED_AXIOMS = []
 IMPL_TIMEOUT = 20.0
 COQ_SHARD = 100
 RULE = ("random programs (8-40 operations) over: caller objects (adapter lists, header dicts with str/bytes values "
-        "and case variants of Authorization / Content-Type / X-Request-ID / X-Tag, params dicts and pair lists with "
-        "unicode and reserved characters, bytes / str / structured bodies incl. empty and falsy ones), HttpConn / "
+        "and case variants of Authorization / Content-Type / X-Request-ID / X-Tag, params dicts / lists / tuples of pairs with "
+        "unicode and reserved characters, repeated keys and non-str values (int, bool, None), bytes / str / structured bodies incl. empty and falsy ones), HttpConn / "
         "BAuthConn / ClientAuthConn / TokenAuthConn over addresses (with and without trailing slash, list/tuple/dict "
         "argument forms, request ids off) and over earlier connections (adapters=None / one adapter / a list object), "
         "MCallerHttp subclasses with prefix maps (empty prefix, shared prefix, no / two matching components), "
         "clone(None / adapter / list), wrapper methods with components (get_conn + per-prefix cache), "
-        "get/post/put/delete/patch and direct do_request with default / lower-case methods; every program ends with a "
+        "get/post/put/delete/patch and direct do_request with default / lower-case methods; EVERY request also draws the "
+        "rarely used arguments -- raw_response omitted / False / True (positional and by keyword for do_request), absent "
+        "params / data / headers omitted or passed as an explicit None -- and the answer of the substitute opener: status "
+        "(200 201 202 204 301 399 | 400 401 404 500 503 -> HTTPError), Content-Type (json, json+charset, text, html, octet-stream, none), "
+        "body (empty, json of every kind incl. the falsy values 0 null false [] {} \"\", unicode, surrounding blanks, "
+        "blank-only, plain text, html, truncated json, bytes that are not utf-8 in five ways, a BOM, invalid utf-8 inside a json string); "
+        "every program ends with a "
         "sweep of requests through every connection and caller created, re-using the same caller objects; ~12% of the "
         "programs also use add_adapter (compared with the model; the oracle demands that it reaches only the connection "
-        "object it is called on).  Non-trivial = a request goes through a chain of depth >= 2 "
+        "object it is called on).  Compared per request: the Request handed to the opener, the order of the process_response "
+        "calls AND the value returned to the caller (marks of the tag adapters around '' / the decoded json / the very response "
+        "object the opener returned, with its .data).  Non-trivial = a request goes through a chain of depth >= 2 "
         "after a later derivation from one of its connections or callers.")
 TRUSTED_BASE = [
     "urllib.request.Request stores headers under key.capitalize() (later value wins), keeps url / data / method as "
@@ -40,8 +48,19 @@ TRUSTED_BASE = [
     "default-method expression, the shape of RequestArguments' headers copy, of `self.adapters = own + parent's`, of "
     "the two adapter loops of do_request and of the list/single test of MCallerHttp.clone are read from the source by "
     "harness/props/c17.py:gen_consts (ast, fail-closed)",
-    "the substitute for OpenerDirector.open (captures the Request, answers 200 with an empty body) and the harness's "
-    "own RequestAdapter subclass TagAdapter (appends to header X-Tag / records the order of process_response calls)",
+    "the substitute for OpenerDirector.open (captures the Request; answers with the case's status / Content-Type / body: a "
+    "FakeResponse for statuses < 400, urllib.error.HTTPError around a BytesIO for >= 400, as urllib's HTTPErrorProcessor "
+    "does for real answers; redirects are not followed) and the harness's own RequestAdapter subclass TagAdapter (appends "
+    "to header X-Tag; process_response records the order of the calls and returns Marked(tag, value), so that order and "
+    "count of the processors are visible in the value the caller gets)",
+    "json.loads of a response body is an oracle value (r_json: canonical json.dumps(sort_keys) of json.loads(text), computed "
+    "by the harness, None when json.loads raises), like json.dumps for request bodies; bytes.decode('utf-8') is MODELLED "
+    "(Model.decode_utf8, strict) and compared per case; the shape of the response part of do_request -- signature, the one "
+    "try around the opener call with `except urllib.error.HTTPError ...: raise`, `with response: response.data = "
+    "response.read()`, `if [not] raw_response:` decode + json.loads-unless-empty / the response, the processor loop as the "
+    "statement in front of the ONLY return -- the signatures of the five verbs (raw_response passed on), "
+    "RequestAdapter.process_response = identity and no override in the four adapters of conn_http.py are pinned by the "
+    "extractor (fail closed)",
 ]
 ASSUMPTIONS = [
     "adapters are the four of ak/conn_http.py (path prefix, basic, client, token) or the harness's TagAdapter; "
@@ -52,12 +71,17 @@ ASSUMPTIONS = [
     "cached before add_adapter on the caller's own connection sees the added adapter is not determined by the property "
     "(the code keeps the cached one; model = code, no oracle verdict)",
     "single-threaded use (request ids under concurrency are C16); the value of a GENERATED X-Request-ID is not compared (a caller-supplied one is)",
+    "the response clause is about the adapters' process_response: the statement does not say what an error status or an "
+    "undecodable body must do; the code raises (HTTPError; ValueError when decoding was asked for) -- model = code, the "
+    "oracle excuses exactly those calls and demands nothing of them; the Content-Type of the answer is ignored by the code "
+    "(and by the model)",
 ]
-MODELLED = ("ak/conn_http.py RequestArguments, the adapters, _HttpConnBase.__init__/add_adapter/get..patch, "
-            "_HttpConnImpl.__init__ (address, request-id switch) and do_request up to the opener call and the response "
-            "processor loop; ak/mcaller_http.py MCallerHttp.__init__/clone/get_conn (component matching, per-prefix "
-            "cache).  Not modelled: logging, descriptions (mk_descr, __str__), auth_type, raw_response, HTTPError "
-            "handling, json decoding of the response, hdoc notes")
+MODELLED = ("ak/conn_http.py RequestArguments, the adapters (process_req_args and process_response), "
+            "_HttpConnBase.__init__/add_adapter/get..patch, _HttpConnImpl.__init__ (address, request-id switch) and the "
+            "whole of do_request: request assembly, the opener call (HTTPError for error statuses), response.data, "
+            "raw_response=True/False, utf-8 decoding + json.loads unless empty, the response processor loop, the returned "
+            "value; ak/mcaller_http.py MCallerHttp.__init__/clone/get_conn (component matching, per-prefix "
+            "cache).  Not modelled: logging, descriptions (mk_descr, __str__), auth_type, hdoc notes, err.data of a raised HTTPError")
 
 VERBS = ["get", "post", "put", "delete", "patch"]
 
@@ -238,9 +262,28 @@ def gen_consts(repo):
             raise ExtractError(f"_HttpConnBase.{v}: not a single call of self.conn_impl.do_request")
         a = f[0].value.args
         if not (len(a) == 7 and _is_attr(a[0], "self", "adapters") and _is_name(a[1], "path") and _is_name(a[3], "params")
-                and _is_name(a[4], "data") and _is_name(a[5], "headers") and not f[0].value.keywords):
+                and _is_name(a[4], "data") and _is_name(a[5], "headers") and _is_name(a[6], "raw_response")
+                and not f[0].value.keywords):
             raise ExtractError(f"_HttpConnBase.{v}: unexpected arguments of do_request")
+        fa = _fn(base.body, v).args
+        if ([x.arg for x in fa.args] != ["self", "path"] or [x.arg for x in fa.kwonlyargs] != ["params", "data", "headers", "raw_response"]
+                or fa.vararg or fa.kwarg
+                or [getattr(d, "value", "?") for d in fa.kw_defaults] != [None, None, None, False]):
+            raise ExtractError(f"_HttpConnBase.{v}: unexpected signature")
         verbs.append(_const(a[2], str))
+    # --- RequestAdapter.process_response is the identity and the adapters of conn_http.py do not override it
+    ra_cls = _cls(body, "RequestAdapter")
+    pr = _strip_doc(_fn(ra_cls.body, "process_response").body)
+    pr_args = [x.arg for x in _fn(ra_cls.body, "process_response").args.args]
+    if not (len(pr_args) == 2 and len(pr) == 1 and isinstance(pr[0], ast.Return) and _is_name(pr[0].value, pr_args[1])):
+        raise ExtractError("RequestAdapter.process_response: not `return return_value`")
+    for holder, nm in ((_cls(body, "BAuthConn").body, "Adapter"), (_cls(body, "ClientAuthConn").body, "Adapter"),
+                       (_cls(body, "TokenAuthConn").body, "Adapter"), (body, "RequestAdapterAddPathPrefix")):
+        c = _cls(holder, nm)
+        if not (len(c.bases) == 1 and _is_name(c.bases[0], "RequestAdapter")):
+            raise ExtractError(f"{nm}: not a direct subclass of RequestAdapter")
+        if any(isinstance(n, ast.FunctionDef) and n.name == "process_response" for n in c.body):
+            raise ExtractError(f"{nm}: overrides process_response (the model has the identity there)")
     # --- do_request
     dr = _fn(_cls(body, "_HttpConnImpl").body, "do_request")
     fors = [n for n in ast.walk(dr) if isinstance(n, ast.For)]
@@ -263,6 +306,74 @@ def gen_consts(repo):
         resp_reversed = False
     else:
         raise ExtractError("do_request: response loop not recognised")
+    # --- the response path: opener call (HTTPError logged and re-raised), response.data = response.read(),
+    #     `if not raw_response: decode + json.loads (unless empty) else: the response`, the processor loop over
+    #     that value -- for BOTH branches -- and the only `return` of the function returns the processed value
+    dargs = dr.args
+    if ([x.arg for x in dargs.args] != ["self", "adapters", "path", "method", "params", "data", "headers", "raw_response"]
+            or dargs.vararg or dargs.kwarg or dargs.kwonlyargs
+            or [getattr(d, "value", "?") for d in dargs.defaults] != [None, None, None, None, False]):
+        raise ExtractError("do_request: unexpected signature")
+    top = _strip_doc(dr.body)
+    rets = [n for n in ast.walk(dr) if isinstance(n, ast.Return)]
+    if len(rets) != 1 or top[-1] is not rets[0] or not isinstance(rets[0].value, ast.Name):
+        raise ExtractError("do_request: expected exactly one `return <value>`, as the last statement (an early return skips the response processors)")
+    rv = rets[0].value.id
+    ploop = post[0]
+    if ploop not in top or top.index(ploop) != len(top) - 2 or ploop.orelse or not isinstance(ploop.target, ast.Name):
+        raise ExtractError("do_request: the response processor loop is not the statement in front of the final return")
+    pb = ploop.body[0]
+    if not (len(pb.targets) == 1 and _is_name(pb.targets[0], rv) and _is_name(pb.value.func.value, ploop.target.id)
+            and len(pb.value.args) == 1 and _is_name(pb.value.args[0], rv) and not pb.value.keywords):
+        raise ExtractError(f"do_request: response loop is not `{rv} = adapter.process_response({rv})`")
+    rif = top[len(top) - 3]
+
+    def is_decode(stmts):
+        """[rv = response.data.decode('utf-8'), if rv: rv = json.loads(rv)]"""
+        if len(stmts) != 2 or not isinstance(stmts[0], ast.Assign) or not isinstance(stmts[1], ast.If):
+            return False
+        a0, i1 = stmts
+        c0 = a0.value
+        if not (len(a0.targets) == 1 and _is_name(a0.targets[0], rv) and isinstance(c0, ast.Call)
+                and _is_attr(c0.func, ("response", "data"), "decode") and not c0.keywords
+                and [getattr(x, "value", None) for x in c0.args] in (["utf-8"], ["utf8"], [])):
+            return False
+        if not (_is_name(i1.test, rv) and not i1.orelse and len(i1.body) == 1 and isinstance(i1.body[0], ast.Assign)):
+            return False
+        a1 = i1.body[0]
+        return (len(a1.targets) == 1 and _is_name(a1.targets[0], rv) and isinstance(a1.value, ast.Call)
+                and _is_attr(a1.value.func, "json", "loads") and len(a1.value.args) == 1 and _is_name(a1.value.args[0], rv)
+                and not a1.value.keywords)
+
+    def is_raw(stmts):
+        return (len(stmts) == 1 and isinstance(stmts[0], ast.Assign) and len(stmts[0].targets) == 1
+                and _is_name(stmts[0].targets[0], rv) and _is_name(stmts[0].value, "response"))
+    if not isinstance(rif, ast.If):
+        raise ExtractError("do_request: no `if [not] raw_response:` in front of the response processor loop")
+    if isinstance(rif.test, ast.UnaryOp) and isinstance(rif.test.op, ast.Not) and _is_name(rif.test.operand, "raw_response"):
+        ok_resp = is_decode(rif.body) and is_raw(rif.orelse)
+    elif _is_name(rif.test, "raw_response"):
+        ok_resp = is_raw(rif.body) and is_decode(rif.orelse)
+    else:
+        ok_resp = False
+    if not ok_resp:
+        raise ExtractError("do_request: response decoding is not `decode('utf-8') + json.loads unless empty` / the raw response")
+    tries = [n for n in top if isinstance(n, ast.Try)]
+    if len(tries) != 1 or len([n for n in ast.walk(dr) if isinstance(n, ast.Try)]) != 1:
+        raise ExtractError("do_request: expected exactly one try statement (the opener call)")
+    tr = tries[0]
+    if not (len(tr.body) == 1 and isinstance(tr.body[0], ast.Assign) and _is_name(tr.body[0].targets[0], "response")
+            and isinstance(tr.body[0].value, ast.Call) and _is_attr(tr.body[0].value.func, ("self", "opener"), "open")
+            and len(tr.handlers) == 1 and not tr.orelse and not tr.finalbody
+            and _is_attr(tr.handlers[0].type, ("urllib", "error"), "HTTPError")
+            and isinstance(tr.handlers[0].body[-1], ast.Raise) and tr.handlers[0].body[-1].exc is None):
+        raise ExtractError("do_request: the opener call / `except urllib.error.HTTPError ...: raise` not recognised")
+    withs = [n for n in top if isinstance(n, ast.With) and len(n.items) == 1 and _is_name(n.items[0].context_expr, "response")]
+    if not (len(withs) == 1 and len(withs[0].body) == 1 and isinstance(withs[0].body[0], ast.Assign)
+            and _is_attr(withs[0].body[0].targets[0], "response", "data")
+            and isinstance(withs[0].body[0].value, ast.Call) and _is_attr(withs[0].body[0].value.func, "response", "read")
+            and top.index(tr) < top.index(withs[0]) < top.index(rif)):
+        raise ExtractError("do_request: `with response: response.data = response.read()` not recognised")
     reqid = ctype = None
     reqid_ci = False
 
@@ -382,6 +493,20 @@ HKEYS = ["Accept", "accept", "X-Custom", "x_custom-2", "Content-Type", "content-
 HVALS = ["v", "", "text/plain", "a b", "é", "Basic xyz", "t"]
 PKEYS = ["param", "k é", "a", "", "x&y", "q=1", "中", "~._-", "sp ace", "pl+us", "%25", "/s/"]
 COMPS = ["componentA", "componentB", "my_server", "my_server_frontend", "x"]
+# what the substitute opener answers: status codes (>= 400: urllib raises HTTPError), Content-Type of the response
+# (the code never looks at it), body bytes: empty, json values of every kind (falsy ones, scalars, null, a json str,
+# unicode), blank / plain text / html / truncated json, bytes that are not utf-8 (stray continuation byte, truncated
+# sequence, overlong form, surrogate, above U+10FFFF), a BOM
+RESP_CODES = [200, 200, 200, 200, 200, 200, 201, 202, 204, 301, 399, 400, 401, 404, 500, 503]
+RESP_CTYPES = ["application/json", "application/json; charset=utf-8", "text/plain", "text/html; charset=latin-1",
+               "application/octet-stream", None]
+RESP_BODIES = [b"", b"", b"{}", b'{"answer": 42}', b"[]", b"0", b"null", b"false", b"true", b'""', b'"txt"',
+               b'"\\u00e9 \xc3\xa9"', b'[1, {"a": null}]', '{"k": "中\U0001f600", "l": [1, 2]}'.encode(), b' {"x": [true]} \n',
+               b'{"b": 1, "a": {"d": 2, "c": 3}}', b"-12", b"12345678901234567890",
+               b" ", b"\n", b"hello", b"<html>", b'{"a": 1', b"{'a': 1}", b"\xff\xfe", b"\xc3", b"\x80",
+               b"\xc0\xaf", b"\xed\xa0\x80", b"\xf4\x90\x80\x80", b"\xef\xbb\xbf{}", "é".encode(),
+               b'"\xff"', b'{"k": "\xc3"}', b'["\xc0\xaf", "\xed\xa0\x80"]', b'"a\x80b"']
+PVALS = [0, 1, -5, 42, True, False, None]
 JSONS = [{}, [], {"arg": 42}, {"a": [1, "é", None, True]}, [1, 2, 3], 0, 5, False, True, {"k": {"n": -1, "s": "q\"\\\n"}},
          ["\U0001f600"], {"arg": "v"}, [[]], {"": ""}]
 
@@ -433,9 +558,10 @@ def gen_program(rng, with_add=False, size=None):
 
     def new_params():
         ks = rng.sample(PKEYS, rng.choice([0, 1, 1, 2, 3]))
-        form = "dict" if rng.random() < 0.75 else "pairs"
-        p = [[k, rng.choice(WORDS + PKEYS)] for k in ks]
-        if form == "pairs" and p and rng.random() < 0.5:
+        r = rng.random()
+        form = "dict" if r < 0.7 else "pairs" if r < 0.9 else "tuple"
+        p = [[k, rng.choice(WORDS + PKEYS) if rng.random() < 0.8 else rng.choice(PVALS)] for k in ks]
+        if form != "dict" and p and rng.random() < 0.5:
             p.append([p[0][0], rng.choice(WORDS)])
         add_obj("params", {"o": "params", "p": p, "as": form})
 
@@ -502,8 +628,19 @@ def gen_program(rng, with_add=False, size=None):
 
         def pick(kind, p):
             return rng.choice(n_obj[kind]) if n_obj[kind] and rng.random() < p else None
+        # the rarely used arguments: raw_response omitted / False / True; arguments that are absent passed as an
+        # explicit None; and the environment of the call: what the opener answers
+        r = rng.random()
+        raw = None if r < 0.5 else False if r < 0.65 else True
+        r = rng.random()
+        if r < 0.45:
+            resp = {"code": 200, "ctype": "application/json", "body": list(rng.choice(RESP_BODIES[:18]))}
+        elif r < 0.8:
+            resp = {"code": rng.choice(RESP_CODES[:11]), "ctype": rng.choice(RESP_CTYPES), "body": list(rng.choice(RESP_BODIES[:18]))}
+        else:
+            resp = {"code": rng.choice(RESP_CODES), "ctype": rng.choice(RESP_CTYPES), "body": list(rng.choice(RESP_BODIES))}
         return {"m": m, "path": rng.choice(PATHS), "params": pick("params", 0.5), "data": pick("body", 0.5),
-                "headers": pick("hdrs", 0.5)}
+                "headers": pick("hdrs", 0.5), "raw": raw, "xnone": rng.random() < 0.25, "resp": resp}
 
     def comps_for(m):
         pm = callers[m]
@@ -589,7 +726,17 @@ def _canon_hval(v):
     return [9, SX.s(type(v).__name__)]
 
 
+DEFAULT_RESP = {"code": 200, "ctype": None, "body": []}     # cases written before the response path was modelled
+
+
+def _q_resp(q):
+    return q.get("resp") or DEFAULT_RESP
+
+
 def impl_run(case):
+    import email.message
+    import io
+    import urllib.error
     import urllib.request
     from unittest.mock import patch
     from ak import conn_http
@@ -615,13 +762,21 @@ def impl_run(case):
 
         def process_response(self, return_value):
             resp_log.append(self.k)
-            return return_value
+            return Marked(self.k, return_value)
+
+    class Marked:
+        """what TagAdapter.process_response returns: the value it was given, marked with the adapter's tag"""
+        def __init__(self, k, v):
+            self.k = k
+            self.v = v
 
     class FakeResponse:
-        def __init__(self, method):
-            self.data = b""
+        def __init__(self, method, spec):
+            self._body = bytes(spec["body"])
             self._method = method
-            self.code = 200
+            self.code = self.status = spec["code"]
+            self._ctype = spec["ctype"]
+            self.n_read = 0
 
         def __enter__(self):
             return self
@@ -630,14 +785,51 @@ def impl_run(case):
             pass
 
         def read(self):
-            return self.data
+            self.n_read += 1
+            return self._body if self.n_read == 1 else b""
 
         def getheaders(self):
-            return {}
+            return [("Content-Type", self._ctype)] if self._ctype is not None else []
+
+    class FakeFp(io.BytesIO):
+        """the body of an error answer (what HTTPError wraps; do_request reads and logs it)"""
+        def __init__(self, method, spec):
+            super().__init__(bytes(spec["body"]))
+            self._method = method
+            self._ctype = spec["ctype"]
+
+        def getheaders(self):
+            return [("Content-Type", self._ctype)] if self._ctype is not None else []
+
+    answer = [DEFAULT_RESP]     # what the opener answers to the current request
+    answered = []
 
     def fake_open(self, request, *a, **kw):
         captured.append(request)
-        return FakeResponse(request.get_method())
+        spec = answer[0]
+        if spec["code"] >= 400:     # urllib's HTTPErrorProcessor
+            hdrs = email.message.Message()
+            if spec["ctype"] is not None:
+                hdrs["Content-Type"] = spec["ctype"]
+            raise urllib.error.HTTPError(request.full_url, spec["code"], "error", hdrs, FakeFp(request.get_method(), spec))
+        r = FakeResponse(request.get_method(), spec)
+        answered.append(r)
+        return r
+
+    def canon_ret(v, depth=0):
+        """the value a request returned: marks of the tag adapters (outermost first) around '' / a decoded json
+        value (canonical text) / the response object the opener returned"""
+        if isinstance(v, Marked) and depth < 200:
+            return [3, v.k, canon_ret(v.v, depth + 1)]
+        if isinstance(v, FakeResponse):
+            d = getattr(v, "data", None)
+            if not (len(answered) == 1 and v is answered[0]):
+                return [8, SX.s("another response object")]
+            return [2, v.code, list(d) if isinstance(d, (bytes, bytearray)) else [-1]]
+        try:
+            return [1, SX.s(json.dumps(v, sort_keys=True))]
+        except Exception:
+            return [9, SX.s(type(v).__name__)]
 
     registry = {}     # id(adapter object) -> spec (objects are kept alive in `keep`)
     keep = []
@@ -671,9 +863,19 @@ def impl_run(case):
         for name in ("params", "data", "headers"):
             if q[name] is not None:
                 kw[name] = at(objs, q[name])
+            elif q.get("xnone"):
+                kw[name] = None             # an absent argument passed as an explicit None
+        raw = q.get("raw")
+        answer[0] = _q_resp(q)
         if q["m"][0] == "verb":
+            if raw is not None:
+                kw["raw_response"] = raw
             return getattr(conn, VERBS[q["m"][1]])(q["path"], **kw)
-        return conn.conn_impl.do_request(conn.adapters, q["path"], q["m"][1], kw.get("params"), kw.get("data"), kw.get("headers"))
+        pos = [conn.adapters, q["path"], q["m"][1], kw.get("params"), kw.get("data"), kw.get("headers")]
+        if raw is None:
+            return conn.conn_impl.do_request(*pos) if not q.get("xnone") else conn.conn_impl.do_request(
+                pos[0], pos[1], method=pos[2], params=pos[3], data=pos[4], headers=pos[5])
+        return conn.conn_impl.do_request(*pos, raw) if not q.get("xnone") else conn.conn_impl.do_request(*pos, raw_response=raw)
 
     def mk_class(pmap):
         ns = {"_HTTP_PREFIX_MAP": dict((k, v) for k, v in pmap)}
@@ -732,6 +934,7 @@ def impl_run(case):
             t = o["o"]
             del captured[:]
             del resp_log[:]
+            del answered[:]
             try:
                 if t == "list":
                     objs.append([mk_adapter(s) for s in o["ads"]])
@@ -742,7 +945,8 @@ def impl_run(case):
                     kinds.append("hdrs")
                     res = ["ok"]
                 elif t == "params":
-                    objs.append(dict((k, v) for k, v in o["p"]) if o["as"] == "dict" else [(k, v) for k, v in o["p"]])
+                    objs.append(dict((k, v) for k, v in o["p"]) if o["as"] == "dict" else [(k, v) for k, v in o["p"]]
+                                if o["as"] == "pairs" else tuple((k, v) for k, v in o["p"]))
                     kinds.append("params")
                     res = ["ok"]
                 elif t == "body":
@@ -780,10 +984,10 @@ def impl_run(case):
                     res = ["ok"]
                 elif t in ("req", "call"):
                     if t == "req":
-                        send(at(conns, o["c"]), o["q"], objs)
+                        ret = send(at(conns, o["c"]), o["q"], objs)
                     else:
                         i = comp_specs.index(json.dumps(o["comps"], sort_keys=True))
-                        getattr(at(callers, o["m"]), f"w{i}")(o["q"], objs)
+                        ret = getattr(at(callers, o["m"]), f"w{i}")(o["q"], objs)
                     if len(captured) != 1:
                         res = ["sent", len(captured)]
                     else:
@@ -791,7 +995,8 @@ def impl_run(case):
                         res = ["req", {"url": r.full_url, "method": r.get_method(),
                                        "headers": [[k, _canon_hval(v)] for k, v in r.headers.items()],
                                        "data": None if r.data is None else list(r.data) if isinstance(r.data, (bytes, bytearray)) else [-1],
-                                       "resp": list(resp_log)}]
+                                       "resp": list(resp_log), "ret": canon_ret(ret),
+                                       "n_read": answered[0].n_read if answered else -1}]
                 else:
                     raise ValueError(t)
             except Skip:
@@ -848,12 +1053,30 @@ def _c_q(q):
         cm = f"(MVerb {SX.cnat(m[1])})"
     else:
         cm = f"(MRaw {SX.copt(m[1], SX.cstr)})"
-    return ("{| s_meth := %s; s_path := %s; s_params := %s; s_data := %s; s_headers := %s |}"
-            % (cm, SX.cstr(q["path"]), SX.copt(q["params"], SX.cnat), SX.copt(q["data"], SX.cnat), SX.copt(q["headers"], SX.cnat)))
+    rs = _q_resp(q)
+    resp = "{| r_code := %s; r_body := %s; r_json := %s |}" % (SX.cZ(rs["code"]), SX.cZlist(rs["body"]), SX.copt(_resp_json(rs["body"]), SX.cstr))
+    return ("{| s_meth := %s; s_path := %s; s_params := %s; s_data := %s; s_headers := %s; s_raw := %s; s_resp := %s |}"
+            % (cm, SX.cstr(q["path"]), SX.copt(q["params"], SX.cnat), SX.copt(q["data"], SX.cnat), SX.copt(q["headers"], SX.cnat),
+               SX.cbool(bool(q.get("raw"))), resp))
+
+
+def _resp_json(body):
+    """oracle value for the model (as json.dumps is for request bodies): canonical text of json.loads of the body
+    text, None when the body is not utf-8, empty, or not json"""
+    try:
+        text = bytes(body).decode("utf-8")
+        return json.dumps(json.loads(text), sort_keys=True) if text else None
+    except ValueError:
+        return None
+
+
+def _pstr(v):
+    """a params value as urlencode sees it: str(v) unless it is a str"""
+    return v if isinstance(v, str) else str(v)
 
 
 def _c_pairs(p):
-    return SX.clist(SX.cpair(SX.cstr(k), SX.cstr(v)) for k, v in p)
+    return SX.clist(SX.cpair(SX.cstr(k), SX.cstr(_pstr(v))) for k, v in p)
 
 
 def _dict_pairs(p, form):
@@ -928,7 +1151,7 @@ def _sx_obj(c):
     if c[0] == 1:
         return [1, [[SX.s(k), v] for k, v in c[1]]]
     if c[0] == 2:
-        return [2, [[SX.s(k), SX.s(v)] for k, v in c[1]]]
+        return [2, [[SX.s(k), SX.s(_pstr(v))] for k, v in c[1]]]
     if c[0] == 3:
         if c[1] == 0:
             return [3, [0, c[2]]]
@@ -954,7 +1177,7 @@ def _sx_req(r):
             v = [2, []]          # generated id: presence only (the model's HGenId); a caller-supplied id is compared
         hs.append([SX.s(k), v])
     hs.sort(key=lambda kv: kv[0])
-    return [SX.s(r["url"]), SX.s(r["method"]), hs, SX.opt(r["data"]), r["resp"]]
+    return [SX.s(r["url"]), SX.s(r["method"]), hs, SX.opt(r["data"]), r["resp"], r.get("ret", [1, SX.s('""')])]
 
 
 M63 = (1 << 63) - 1
@@ -1048,8 +1271,17 @@ def oracle(case, obs):
         hd = dict((k, v) for k, v in objs[q["headers"]]["d"]) if q["headers"] is not None else {}
         low = [k.lower() for k in hd]
         n_auth = sum(1 for a in chain if _is_auth(a))
+        rs = _q_resp(q)
+        raw = bool(q.get("raw"))
         if r[0] == "err":
             excused = (r[1] == "AssertionError" and n_auth >= 1 and (n_auth >= 2 or "authorization" in low))
+            # the answer of the server is an error status, or -- decoding asked for -- not json: do_request raises
+            # (after the request was sent, once); the statement demands nothing of such calls
+            if r[1] == "HTTPError" and rs["code"] >= 400 and r[2] == 1:
+                excused = True
+            if (r[1] == "ValueError" and not raw and rs["code"] < 400 and r[2] == 1 and rs["body"]
+                    and _resp_json(rs["body"]) is None):
+                excused = True
             if not excused:
                 out.append(("request-raises", f"op #{idx} {what}: {r[1]} for chain {chain}, headers {hd}"))
             return
@@ -1067,6 +1299,31 @@ def oracle(case, obs):
                 out.append(("adapter-not-once", f"op #{idx} {what}: adapters of the chain {tags}, applied (X-Tag) {applied}"))
             elif req["resp"] != applied[::-1]:
                 out.append(("response-order", f"op #{idx} {what}: request order {applied}, response order {req['resp']}"))
+        # ... and on the VALUE handed back to the caller, raw_response or not: the marks of the tag adapters around
+        # it are those of the chain, each once, the first adapter's outermost (its processor runs last); inside
+        # is what the opener answered: the response object itself (raw) / '' / the decoded json
+        ret = req.get("ret")
+        if ret is not None:
+            marks, v = [], ret
+            while v[0] == 3:
+                marks.append(v[1])
+                v = v[2]
+            if sorted(marks) != sorted(tags):
+                out.append(("response-not-once", f"op #{idx} {what} raw_response={q.get('raw')}: response processors of the chain {tags}, "
+                            f"applied to the returned value {marks}"))
+            elif marks != tags:
+                out.append(("response-order", f"op #{idx} {what} raw_response={q.get('raw')}: chain {tags}, marks around the returned "
+                            f"value (outermost first) {marks}"))
+            if raw:
+                want_v = [2, rs["code"], list(rs["body"])]
+            else:
+                js = _resp_json(rs["body"])
+                want_v = [1, SX.s(js if js is not None else '""')]
+            if rs["code"] >= 400 or (not raw and rs["body"] and _resp_json(rs["body"]) is None):
+                want_v = None       # an answer the code is expected to refuse: left to the model comparison
+            if want_v is not None and v != want_v:
+                out.append(("response-value", f"op #{idx} {what} raw_response={q.get('raw')}: returned {json.dumps(v)[:200]} inside the marks, "
+                            f"the opener answered {json.dumps(rs)[:200]}"))
         # path prefixes: inner connections outermost
         path = q["path"]
         for a in chain:
@@ -1127,7 +1384,7 @@ def oracle(case, obs):
         # the same request through the same object must not depend on what was derived meanwhile
         key = json.dumps([what, q, conn.get("ver", 0)], sort_keys=True)
         canon = json.dumps([req["url"], req["method"], sorted([k, v] for k, v in req["headers"] if k != REQID_CAP),
-                            REQID_CAP in got_h, req["data"], req["resp"]])
+                            REQID_CAP in got_h, req["data"], req["resp"], req.get("ret")])
         if key in seen and seen[key][1] != canon:
             out.append(("interference", f"op #{idx} {what}: differs from the same request at op #{seen[key][0]}: {canon[:300]} vs {seen[key][1][:300]}"))
         seen.setdefault(key, (idx, canon))
@@ -1265,15 +1522,22 @@ TECHNIQUE = ("Coq proof on a hand-written executable Gallina HEAP model (mutable
              "(3) a second, weaker ownership invariant over ALL operation sequences INCLUDING add_adapter (every connection owns its "
              "list cell; cached connections are not nameable) giving frame_any / noninterference_any / add_adapter_effect; (4) "
              "induction over adapter lists for prefix order, tags, the Authorization header; (5) base64 / utf-8 modelled with proved "
-             "round trips.  Tied to the code per run by the correspondence check (vm_compute of the model vs the implementation on "
+             "round trips; (6) the response path (opener answer -> raw / decoded base value -> fold of process_response over the "
+             "reversed list) inside the same do_request / spec_of, with fold_left over rev = fold_right and the marks of the "
+             "returned value by induction over the adapter list.  Tied to the code per run by the correspondence check (vm_compute of the model vs the implementation on "
              "random programs, incl. programs with add_adapter) and by clauses / literal keys regenerated from the source (ast, "
              "fail closed) on which source_clauses states the obligations.")
-LEVEL_TEXT = ("Model-level theorems (coq/C17/Props.v, 32 theorems + 8 examples, all closed), quantified over ALL chains, ALL request "
+LEVEL_TEXT = ("Model-level theorems (coq/C17/Props.v, 38 theorems + 9 examples, all closed), quantified over ALL chains, ALL request "
               "arguments and ALL operation sequences (programs over wrap / Caller / clone(None|adapter|list) / component lookup with "
               "the per-prefix cache / request / new caller objects) -- FULL: chain_applied_once + wrapper_call_chain (a request "
               "= spec_of the adapters of the whole chain, own first then the parent's ..., each once in that order; component "
               "prefix adapter in front, fresh / cached / empty-prefix case alike), adapters_each_once, prefix_order + prefix_join "
-              "(inner prefixes outermost), response_reverse_order (ORDER of process_response calls only), one_auth (exactly one "
+              "(inner prefixes outermost), response_reverse_order (order of the process_response CALLS) and, for the VALUE returned "
+              "to the caller, respond_chain + raw_and_decoded_alike + response_chain_app + response_processed_once_reverse + "
+              "wrapper_response_processed (every successful request / wrapper call in a reachable state, raw_response True or "
+              "False: returned value = base value -- the response object itself / '' / json.loads of the utf-8 text -- passed "
+              "through process_response of every adapter of the WHOLE chain exactly once over the reversed chain, the first "
+              "adapter's processor outermost; marks v = tags of the chain, unmarked v = base) + http_error_raises, one_auth (exactly one "
               "key Authorization in Request.headers holding the value of the one authenticating adapter, wherever it sits; also "
               "when the caller passes 'authorization' in another spelling), auth_decodes + codec_roundtrip (base64 and utf-8 are "
               "MODELLED in Codec.v; b64_dec(b64 x) = x and utf8_decode(utf8 s) = s proved for all byte / code-point strings, so the "
@@ -1288,15 +1552,17 @@ LEVEL_TEXT = ("Model-level theorems (coq/C17/Props.v, 32 theorems + 8 examples, 
               "clone's connection never reaches the original), add_adapter_effect (the added adapter is applied last, to that "
               "connection only), request_any / wrapper_call_any.  PARTIAL / abstract: json.dumps text and truthiness of a structured "
               "body are oracle values (BJson js t); urlencode is the model's quote_plus (compared, not proved against urllib); the "
-              "response clause covers the order of the processors, not the values threaded through them; is_text admits surrogates "
+              "json.loads of the response text is an oracle value (r_json) and the only process_response that is not the identity "
+              "is the harness's TagAdapter (the four adapters of conn_http.py inherit RequestAdapter's `return return_value`, "
+              "pinned by the extractor); is_text admits surrogates "
               "(python raises there; not generated).  ONLY TESTED (correspondence + oracle, 700 programs quick / 12000 thorough): "
               "that the model is the code -- urllib's Request header storage (capitalize, later wins), str.upper / "
               "capitalize for non-ASCII, the conn_data forms (address / list / tuple / dict), HttpConn-or-not test of "
               "MCallerHttp.__init__, exception classes; NOT claimed: tuples as `adapters` (TypeError in the code, outside the "
-              "statement), raw_response / json decoding of the response / HTTPError, descriptions, auth_type, logging, threads (C16).")
+              "statement), descriptions, auth_type, logging, threads (C16); what error statuses / undecodable bodies do is model = code (HTTPError / ValueError), not a clause of the statement.")
 LEVEL_NOTE = ("Trusted: Coq kernel + vm_compute; the hand model's fidelity to ak/conn_http.py and ak/mcaller_http.py (checked by "
               "correspondence on every run and by the regenerated clauses, not proved); urllib.request.Request / urlencode / "
-              "json.dumps / base64 / str.encode of the standard library (modelled or passed in as values, compared per case); the ast "
-              "extractor, the substitute opener, TagAdapter and the harness.  The heap model abstracts python object identity to "
+              "json.dumps / json.loads / base64 / str.encode / bytes.decode of the standard library (modelled or passed in as values, compared per case); the ast "
+              "extractor, the substitute opener (statuses >= 400 raise HTTPError), TagAdapter / Marked and the harness.  The heap model abstracts python object identity to "
               "allocation order; own_adapters (used for descriptions only) is kept by value.")
 DESIGN_REF = "DESIGN.md section 8, C17"
